@@ -1171,10 +1171,10 @@ MANIFEST = {
     "design_ref": "DESIGN.md 4/C08",
 }
 FINDINGS = [
-    {"status": "fixed", "key": "occurs-check-escaped", "commit": "fixes/C08-1.patch",
+    {"status": "fixed", "key": "occurs-check-escaped", "commit": "9a9993c",
      "what": "type_infer on `x y & y z & z x` (any occurs-check cycle through a third variable): union() updated reach only for the merged "
              "class, the cycle was not detected and the final substitution loop grew the types until RecursionError"},
-    {"status": "fixed", "key": "type-constructor-arity-mismatch", "commit": "fixes/C08-2.patch",
+    {"status": "fixed", "key": "type-constructor-arity-mismatch", "commit": "12fffad",
      "what": "type_infer on `(x::(nat,nat) list) = (y::nat list)`: IndexError, and with the sides swapped a result that fails "
              "checked_get_type (unify ignored surplus type arguments)"},
 ]
